@@ -1,9 +1,6 @@
 package main
 
 import (
-	"sync/atomic"
-	"sort"
-	"sync"
 	"bytes"
 	"encoding/json"
 	"fmt"
@@ -13,7 +10,10 @@ import (
 	"os/exec"
 	"path/filepath"
 	"reflect"
+	"sort"
 	"strings"
+	"sync"
+	"sync/atomic"
 	"time"
 
 	"github.com/brocaar/lorawan"
